@@ -133,4 +133,89 @@ theorem ustarSpecRB_isSome (e : Entry) (path : List Nat) (t : Nat) (ht : ustarTy
   rw [hr]
   exact ⟨_, rfl⟩
 
+theorem numfield_ok (v : Int) (off s mx : Nat) (act : Bool) (h : act = true → 0 ≤ v ∧ v.toNat < 8 ^ s) :
+    (⟨v, off, s, mx, act⟩ : NumField).failed true = false := by
+  unfold NumField.failed
+  cases act with
+  | false => rfl
+  | true =>
+    obtain ⟨h0, h1⟩ := h rfl
+    simp only [Bool.true_and, ustarFormatNumber, if_true]
+    rw [ustarFormatOctal_eq, if_neg (by omega), if_pos h1]
+
+theorem representable_ustar_not_failed (e : Entry) (p0 : List Nat) (hp : e.path = some p0)
+    (hr : representable .ustar e = true) :
+    ustarFailed e (dirSlash e.ftype p0) (ustarSize e) none true = false := by
+  unfold representable at hr
+  rw [hp] at hr
+  simp only [Bool.and_eq_true] at hr
+  obtain ⟨⟨hshape, hranges⟩, hnames⟩ := hr
+  unfold reprNames at hnames
+  simp only [normPath, convertsNames, imp, Bool.not_false, Bool.true_or, Bool.true_and, Bool.and_eq_true,
+    decide_eq_true_eq, bne_iff_ne, ne_eq] at hnames
+  obtain ⟨⟨⟨hsplit, hsym⟩, hhard⟩, hdbl⟩ := hnames
+  unfold reprRanges at hranges
+  simp only [carriesIds, carriesNames, carriesRdev, idMax, mtimeRange, sizeMax, rdevMax, imp, inR, isCpio,
+    Bool.not_true, Bool.false_or, Bool.and_eq_true, decide_eq_true_eq, Bool.true_and, beq_self_eq_true,
+    Bool.true_or, Bool.or_eq_true, beq_iff_eq, Bool.not_eq_true', Bool.and_true] at hranges
+  unfold reprShape at hshape
+  simp only [imp, Bool.and_eq_true, Bool.or_eq_true, Bool.not_eq_true', List.isEmpty_eq_false_iff, beq_iff_eq,
+    bne_iff_ne, ne_eq, carriesHard, isTar, Bool.true_and, Bool.and_true, List.isEmpty_iff] at hshape
+  obtain ⟨⟨⟨⟨⟨⟨_, _⟩, htyp⟩, _⟩, _⟩, hhs⟩, _⟩ := hshape
+  obtain ⟨⟨⟨⟨⟨huid, hgid⟩, hmt⟩, hsz⟩, hun, hgn⟩, hrdev⟩ := hranges
+  have huid := of_decide_eq_true huid
+  have hgid := of_decide_eq_true hgid
+  have hmt := of_decide_eq_true hmt
+  have h811 : (8 : Nat) ^ 11 = 8589934592 := by decide
+  have h86 : (8 : Nat) ^ 6 = 262144 := by decide
+  have hlinklen : (tarLink e).length ≤ 100 := by unfold tarLink; split <;> assumption
+  have hsize : 0 ≤ ustarSize e ∧ (ustarSize e).toNat < 8 ^ 11 := by
+    unfold ustarSize Entry.sizeV
+    split
+    · rw [h811]; omega
+    · cases hs : e.size with
+      | none => simp only [Option.getD_none]; rw [h811]; omega
+      | some s => rw [hs] at hsz; have hsz := of_decide_eq_true hsz; simp only [Option.getD_some]; rw [h811]; omega
+  unfold ustarFailed
+  simp only [Bool.or_eq_false_iff, beq_eq_false_iff_ne, ne_eq, decide_eq_false_iff_not, Bool.and_eq_false_imp,
+    decide_eq_true_eq, List.any_eq_false, Option.isNone_eq_false_iff, ustar_linkname_size, ustar_uname_size,
+    ustar_gname_size]
+  refine ⟨⟨⟨⟨⟨hsplit, decide_eq_false (by omega)⟩, fun h => absurd (of_decide_eq_true h) (by omega)⟩,
+    fun h => absurd (of_decide_eq_true h) (by omega)⟩, ?_⟩, ?_⟩
+  · intro f hf
+    simp only [ustarNumFields, List.mem_cons, List.mem_nil_iff, or_false] at hf
+    rcases hf with rfl | rfl | rfl | rfl | rfl | rfl | rfl
+    · simp only [Bool.not_eq_true]; exact numfield_ok _ _ _ _ _ (fun _ => ⟨by omega, by simp only [ustar_mode_size]; rw [h86]; omega⟩)
+    · simp only [Bool.not_eq_true]; exact numfield_ok _ _ _ _ _ (fun _ => ⟨by omega, by simp only [ustar_uid_size]; rw [h86]; omega⟩)
+    · simp only [Bool.not_eq_true]; exact numfield_ok _ _ _ _ _ (fun _ => ⟨by omega, by simp only [ustar_gid_size]; rw [h86]; omega⟩)
+    · simp only [Bool.not_eq_true]; exact numfield_ok _ _ _ _ _ (fun _ => ⟨hsize.1, by simp only [ustar_size_size]; exact hsize.2⟩)
+    · simp only [Bool.not_eq_true]; exact numfield_ok _ _ _ _ _ (fun _ => ⟨by omega, by simp only [ustar_mtime_size]; rw [h811]; omega⟩)
+    · simp only [Bool.not_eq_true]
+      apply numfield_ok
+      intro hact
+      simp only [decide_eq_true_eq] at hact
+      have : (e.ftype == FType.chr || e.ftype == FType.blk) = true := by
+        rcases hact with h | h <;> simp [h]
+      rcases hrdev with h | h
+      · rw [this] at h; cases h
+      · have h1 := of_decide_eq_true h.1; exact ⟨by omega, by simp only [ustar_rdevmajor_size]; rw [h86]; omega⟩
+    · simp only [Bool.not_eq_true]
+      apply numfield_ok
+      intro hact
+      simp only [decide_eq_true_eq] at hact
+      have : (e.ftype == FType.chr || e.ftype == FType.blk) = true := by
+        rcases hact with h | h <;> simp [h]
+      rcases hrdev with h | h
+      · rw [this] at h; cases h
+      · have h2 := of_decide_eq_true h.2; exact ⟨by omega, by simp only [ustar_rdevminor_size]; rw [h86]; omega⟩
+  · unfold ustarType
+    simp only []
+    by_cases hh : e.hard ≠ []
+    · rw [if_pos hh]; simp
+    · rw [if_neg hh]
+      have hh' : e.hard = [] := by simpa using hh
+      rcases htyp with h | h
+      · cases hf : e.ftype <;> simp [hf, typesOf, ustarTypeflag] at h ⊢
+      · exact absurd hh' h
+
 end LA.Codec
